@@ -779,6 +779,41 @@ Example cross_index_fixed :
   map r_ok rcs = [true; true; false] /\ cnt = [(9%N, (0%N, true, false))].
 Proof. vm_compute. split; reflexivity. Qed.
 
+(** ------------------------------------------------------------------------------------ *)
+(** Ethereum transactions: what a FAILED one leaves behind *)
+
+Theorem eth_failed_frame cb b n t b' n' :
+  eo_ok t = false -> eth_apply cb (b, n) t = (b', n') ->
+  (forall a, a <> eo_from t -> a <> cb -> b' a = b a) /\
+  (eo_from t <> cb -> b' (eo_from t) = b (eo_from t) - eo_gas_used t * eo_price t /\
+                      b' cb = b cb + eo_gas_used t * eo_price t) /\
+  (eo_from t = cb -> b' cb = b cb) /\
+  (forall a, n' a = if (a =? eo_from t)%N then wrap64 (eo_nonce t + 1) else n a) /\
+  (eo_gas_used t = 0 -> forall a, b' a = b a).
+Proof.
+  intros Hok H. unfold eth_apply in H. rewrite Hok in H. inversion H; subst; clear H.
+  split; [|split; [|split; [|split]]].
+  - intros a H1 H2. unfold bset. destruct (N.eqb_spec a cb); [contradiction|]. destruct (N.eqb_spec a (eo_from t)); [contradiction | reflexivity].
+  - intros Hne. split.
+    + unfold bset. destruct (N.eqb_spec (eo_from t) cb); [contradiction|]. rewrite N.eqb_refl. reflexivity.
+    + unfold bset. rewrite N.eqb_refl. destruct (N.eqb_spec cb (eo_from t)) as [E|]; [symmetry in E; contradiction | reflexivity].
+  - intros E. subst cb. unfold bset. rewrite !N.eqb_refl. lia.
+  - intro a. unfold nset. reflexivity.
+  - intros Hg a. rewrite Hg. unfold bset. simpl.
+    destruct (N.eqb_spec a cb) as [->|]; [destruct (N.eqb_spec cb (eo_from t)) as [E|]; [rewrite <- E|]; lia|].
+    destruct (N.eqb_spec a (eo_from t)) as [->|]; lia.
+Qed.
+
+(** the accounting of an Ethereum transaction, SUCCESS or FAILED, never changes the sum *)
+Theorem eth_conserves dom cb b n t b' n' : NoDup dom -> In (eo_from t) dom -> In cb dom ->
+  (forall r, eo_to t = Some r -> In r dom) ->
+  eth_apply cb (b, n) t = (b', n') -> sumb dom b' = sumb dom b.
+Proof.
+  intros Hnd Hf Hc Hr H. unfold eth_apply in H. inversion H; subst; clear H.
+  destruct (eo_ok t); [destruct (eo_to t) as [r|] eqn:Et|];
+    repeat (rewrite sumb_bset_in by (try assumption; try (apply Hr; reflexivity))); unfold bset; lia.
+Qed.
+
 (** the boolean predicates the judge evaluates on implementation traces, as propositions *)
 Definition p_store (k : xcase) : Prop :=
   (forall x, In x (changed_keys k) -> exists y, In y (succ_keys k) /\ x = y) /\ xc_other k = 0%N.
